@@ -10,19 +10,32 @@ constant folding of constant expressions, by the facts collected on the path and
 stay unknown (``isinstance(arg, int)``, asserts, conditional expressions) fork the path and are recorded as facts.  The
 result - per step a handful of paths, each with the final symbolic *term* of every loop-carried local - is what the rules
 compare structurally.  It is independent of branch order, elif-vs-guard-clause layout, merged branches, temporaries and
-(engine-inlined) helpers.  No loop is unrolled (nested loops, try, with, match make a path `opaque` -> undecided), no
-payload, byte-string argument, request or step program is ever given a concrete value (the only argument that is
-specialised is the `build` selector in R7: one case per literal of the selector vocabulary), no function of /repo is run.
+(engine-inlined) helpers.  A dispatcher that consults a *constant lookup table* of the analysed code (a dict display with
+constant keys, bound once at module or class level and never rebound or updated in place, possibly wrapped in
+MappingProxyType / dict) is followed through the table: `T.get(k)`, `T[k]`, `k in T` are folded for the literal step name
+(constant folding of a constant table), and a call of the entry found - a function named by reference, a lambda, a
+one-expression helper of the same module - is replaced by the entry's result term with the call's arguments bound to
+its parameters (argument binding into package callees; no body is executed, there is nothing to iterate).  A table that
+cannot be resolved leaves a call of a computed callable on the path, which makes the path `opaque`.  No loop is unrolled
+(nested loops, try, with, match make a path `opaque` -> undecided), no payload, byte-string argument, request or step
+program is ever given a concrete value (the only argument that is specialised is the `build` selector in R7: one case
+per literal of the selector vocabulary), no function of /repo is run.
 
 Technique (numbers = allowed devices of RULES_GUIDE "What counts as static here")
 ---------------------------------------------------------------------------------
 core  path walker `_Sym`/`_Side`: (2) three-valued branch pruning under the named assumptions STEP = <literal> / OTHER,
       (3) def-use substitution into symbolic terms, loop body analysed once with symbolic loop-carried values, path-wise
       value flow with symbolic branch outcomes kept as path facts, (5) one case per literal of the step vocabulary plus
-      one "any other value" case, (6) folding of constant expressions only (`"APPEND".lower()`, `b"=" * 2`, `(a, b)[0]`).
+      one "any other value" case, (6) folding of constant expressions only (`"APPEND".lower()`, `b"=" * 2`, `(a, b)[0]`),
+      of lookups in constant tables of the analysed code (`T.get("mask")`, `"mask" in T`, `C2Data._fields` of a NamedTuple
+      class = its annotated field names), (3) argument binding into a lambda / one-expression function of the same module
+      (each non-deterministic primitive inside the callee is a fresh symbol per call; a lambda whose free names are locals
+      of the dispatcher is not entered).  Function references (def / class / partial of the package, attribute of an
+      imported module) are not None and truthy.
       Assumption OTHER (the abstract unknown step name `%other`): it is a str and every ==/!=/in/not in between it - also
-      under str()/lower/upper/casefold/strip - and constants is false/true/false/true.  Lemma: the comparisons mention
-      finitely many literals, so such strings exist (any blank-free ASCII word not case-equivalent to one of them).
+      under str()/lower/upper/casefold/strip - and constants is false/true/false/true; it is not a key of any constant
+      table (`T.get(%other)` is the default).  Lemma: the comparisons and tables mention finitely many literals, so such
+      strings exist (any blank-free ASCII word not case-equivalent to one of them).
 R1    (1) loop located by role (the `for` over self.tsteps / self.rsteps), (5) which vocabulary literals have a normally
       completing path on each side, compared as sets with each other and with the reference opcode tables (6); the OTHER
       case must end in `raise ValueError` on every path (2, 3).
@@ -49,6 +62,17 @@ R7    (5) one case per build selector of the reference vocabulary (output, id, m
       the returned constructor; (2) isinstance facts on the returning path.  Constructor: (3) path-wise terms of
       self.tsteps / self.rsteps with object identities for fresh lists, orientation by structural rules (`x[::-1]`,
       `reversed(x)` flip; `list(x)`, `x[:]`, `x.copy()` keep), recorded list mutations insert(0, .)/append(.).
+      Build starts a new block: (5) per selector, (3) on every normally completing path the final accumulator term must not
+      contain the accumulator symbol (the previous block's bytes must not survive a build, whatever the field holds);
+      positional constructor arguments are bound by the annotated field order of the NamedTuple class (1).
+R8    transform is a function of its arguments only.  (3) terms: which request-field locals receive `%setitem` / mutator
+      terms in some step (updated in place), and the prelude term of each such local, split into its alternatives (`a or
+      b`, conditional expression, prelude join); (1) every alternative is classified by where the container comes from: the
+      caller's initial request (parameter with default None), an allocation evaluated during the call (dict display,
+      dict(..), .copy(), or that field of a NamedTuple constructor call evaluated in the call), or an object that outlives
+      the call - a module-level / class-level binding, an instance attribute (not a property), a parameter default
+      evaluated at definition time.  The last kind is a violation (state leaks from one produced message into the next
+      and into messages already returned); an origin that cannot be classified is undecided.
 """
 
 from __future__ import annotations
@@ -86,7 +110,7 @@ _MUTATORS = {"update", "setdefault", "pop", "popitem", "append", "insert", "exte
              "__setitem__", "__delitem__"}
 _IMPURE = ("random.", "os.urandom", "secrets.", "time.", "uuid.")
 _ALLOC = {"list", "tuple", "reversed", "sorted", "dict", "bytearray", "copy.copy", "copy.deepcopy", "deque", "collections.deque"}
-_DISJOINT = {"int", "bytes", "str", "bytearray", "list", "dict", "tuple", "NoneType", "float", "set", "bool"}
+_DISJOINT = {"int", "bytes", "str", "bytearray", "list", "dict", "tuple", "NoneType", "float", "set", "bool", "function"}
 _CMP = {
     ast.Eq: lambda a, b: a == b, ast.NotEq: lambda a, b: a != b, ast.Lt: lambda a, b: a < b, ast.LtE: lambda a, b: a <= b,
     ast.Gt: lambda a, b: a > b, ast.GtE: lambda a, b: a >= b, ast.In: lambda a, b: a in b, ast.NotIn: lambda a, b: a not in b,
@@ -169,6 +193,48 @@ def _other_cmp(l: ast.AST, op: ast.AST, r: ast.AST) -> Optional[bool]:
     return None
 
 
+_TABLE_WRAPPERS = {"MappingProxyType", "dict", "OrderedDict", "frozendict"}
+
+
+def _locals_of(fn: ast.AST) -> set:
+    """Parameters and every name bound somewhere inside the function."""
+    out = set()
+    a = fn.args
+    for x in a.posonlyargs + a.args + a.kwonlyargs + [y for y in (a.vararg, a.kwarg) if y is not None]:
+        out.add(x.arg)
+    for n in ast.walk(fn):
+        if isinstance(n, ast.Name) and isinstance(n.ctx, (ast.Store, ast.Del)):
+            out.add(n.id)
+        elif isinstance(n, (ast.FunctionDef, ast.AsyncFunctionDef, ast.ClassDef)) and n is not fn:
+            out.add(n.name)
+        elif isinstance(n, ast.ExceptHandler) and n.name:
+            out.add(n.name)
+    return out
+
+
+def _bound_names(st: ast.stmt) -> set:
+    """Names a statement of a module / class body binds (at any nesting of if/try/with/for blocks, not inside defs)."""
+    out = set()
+    if isinstance(st, (ast.FunctionDef, ast.AsyncFunctionDef, ast.ClassDef)):
+        return {st.name}
+    if isinstance(st, (ast.Import, ast.ImportFrom)):
+        return {(a.asname or a.name).split(".")[0] for a in st.names}
+    todo = [st]
+    while todo:
+        n = todo.pop()
+        if isinstance(n, (ast.FunctionDef, ast.AsyncFunctionDef, ast.ClassDef)):
+            out.add(n.name)
+            continue
+        if isinstance(n, (ast.Lambda, ast.ListComp, ast.SetComp, ast.DictComp, ast.GeneratorExp)):
+            continue
+        if isinstance(n, ast.Name) and isinstance(n.ctx, (ast.Store, ast.Del)):
+            out.add(n.id)
+        if isinstance(n, (ast.Import, ast.ImportFrom)):
+            out |= {(a.asname or a.name).split(".")[0] for a in n.names}
+        todo.extend(ast.iter_child_nodes(n))
+    return out
+
+
 class _Path:
     def __init__(self):
         self.env: Dict[str, ast.AST] = {}
@@ -240,6 +306,196 @@ class _Sym:
     def __init__(self, ctx, f, objects: bool = False, budget: int = 96):
         self.ctx, self.f, self.objects, self.budget = ctx, f, objects, budget
         self.fresh = 0
+        self.mod = f.module
+        self.locals = _locals_of(f.node)
+        self._tables: Dict[tuple, Optional[ast.Dict]] = {}
+        self._depth = 0
+
+    # ------------------------------------------------------------------ constants of the analysed code (device 6)
+    def _global(self, e: ast.AST) -> Optional[Tuple[str, str]]:
+        """("module"|"class", NAME) when e is a reference to a module-level name of f's module or to an attribute of f's
+        own class (NAME / self.NAME / cls.NAME / ClassName.NAME) that no local of f shadows."""
+        if isinstance(e, ast.Name) and e.id not in self.locals and not e.id.startswith("%"):
+            return ("module", e.id) if e.id in self.mod.consts else None
+        if isinstance(e, ast.Attribute) and isinstance(e.value, ast.Name) and self.f.cls:
+            h = e.value.id
+            if h in ("self", "cls") or (h == self.f.cls and h not in self.locals):
+                return "class", e.attr
+        return None
+
+    def _global_value(self, e: ast.AST) -> Optional[ast.AST]:
+        """The defining expression of a module-level / class-level name that is bound exactly once and never rebound or
+        mutated in place anywhere in its module (so the binding is a constant of the analysed code); else None."""
+        g = self._global(e)
+        if g is None:
+            return None
+        kind, name = g
+        tree = self.mod.tree
+        if kind == "module":
+            spell = {name}
+            binds = [st for st in tree.body if name in _bound_names(st)]
+            body_val = self.mod.consts.get(name)
+        else:
+            cls = self.mod.classes.get(self.f.cls)
+            if cls is None:
+                return None
+            spell = {f"self.{name}", f"cls.{name}", f"{self.f.cls}.{name}"}
+            binds = [st for st in cls.body if name in _bound_names(st)]
+            body_val = self.ctx.repo.class_attrs(f"{self.mod.name}.{self.f.cls}").get(name)
+        if len(binds) != 1 or not isinstance(binds[0], (ast.Assign, ast.AnnAssign)) or body_val is None:
+            return None
+        for n in ast.walk(tree):
+            if isinstance(n, ast.Global) and name in n.names and kind == "module":
+                return None
+            if isinstance(n, (ast.Attribute, ast.Subscript)) and isinstance(n.ctx, (ast.Store, ast.Del)):
+                d = dotted(n) if isinstance(n, ast.Attribute) else dotted(n.value)
+                if d in spell:
+                    return None
+            if isinstance(n, ast.Call) and isinstance(n.func, ast.Attribute) and n.func.attr in _MUTATORS and dotted(n.func.value) in spell:
+                return None
+            if isinstance(n, ast.AugAssign) and dotted(n.target) in spell:
+                return None
+        return body_val
+
+    def _table(self, e: ast.AST, depth: int = 0) -> Optional[ast.Dict]:
+        """e as a constant lookup table of the analysed code: a dict display with constant keys, possibly wrapped in a
+        read-only / copying constructor, written in place or bound once to a module-level / class-level name."""
+        if depth > 4:
+            return None
+        if isinstance(e, ast.Dict):
+            if e.keys and all(k is not None and _cv(k) is not _NC for k in e.keys):
+                return e
+            return None
+        if isinstance(e, ast.Call):
+            d = (dotted(e.func) or "").split(".")[-1]
+            if d in _TABLE_WRAPPERS and len(e.args) == 1 and not e.keywords:
+                return self._table(e.args[0], depth + 1)
+            if d in ("dict", "OrderedDict") and not e.args and e.keywords and all(k.arg for k in e.keywords):
+                return ast.Dict(keys=[ast.Constant(value=k.arg) for k in e.keywords], values=[k.value for k in e.keywords])
+            return None
+        g = self._global(e)
+        if g is None:
+            return None
+        if g not in self._tables:
+            self._tables[g] = None  # cycle guard
+            v = self._global_value(e)
+            self._tables[g] = self._table(v, depth + 1) if v is not None else None
+        return self._tables[g]
+
+    def _lookup(self, tb: ast.Dict, key) -> Optional[ast.AST]:
+        hit = [v for k, v in zip(tb.keys, tb.values) if _cv(k) == key and type(_cv(k)) is type(key)]
+        return hit[-1] if hit else None
+
+    def _funcref(self, e: ast.AST) -> bool:
+        """e denotes a function / class / module attribute by name (a def, a class, a functools.partial of the package, or an
+        attribute of an imported module): an object that is not None and is truthy."""
+        if isinstance(e, ast.Lambda):
+            return True
+        d = dotted(e)
+        if d is None or d.split(".")[0] in self.locals or d.startswith("%"):
+            return False
+        s = self.ctx.rs.lookup_dotted(self.mod.name, d)
+        if s is None:
+            return False
+        if s.kind in ("func", "class", "partial"):
+            return True
+        return s.kind == "external" and "." in d
+
+    def _named_fields(self, cls_fq: str, depth: int = 0) -> Optional[List[str]]:
+        """Field names of a typing.NamedTuple class of the package (inherited through package subclasses)."""
+        mname, _, q = cls_fq.partition(".")
+        m = self.ctx.repo.modules.get(mname)
+        node = m.classes.get(q) if m is not None else None
+        if node is None or depth > 4:
+            return None
+        own = [st.target.id for st in node.body if isinstance(st, ast.AnnAssign) and isinstance(st.target, ast.Name)]
+        for b in node.bases:
+            d = dotted(b) or ""
+            if d.split(".")[-1] == "NamedTuple":
+                return own
+            s = self.ctx.rs.lookup_dotted(mname, d) if d else None
+            if s is not None and s.kind == "class":
+                inh = self._named_fields(s.fq, depth + 1)
+                if inh is not None:
+                    return inh  # a subclass of a NamedTuple class cannot add fields
+        return None
+
+    # ------------------------------------------------------------------ calls of lambdas / one-expression helpers (device 3)
+    def _free_ok(self, body: ast.AST, bound: set) -> bool:
+        """The body refers, apart from its parameters, only to names that are not locals of the analysed function (so the
+        names mean the same thing at the call site as at the definition)."""
+        return not ((names_in(body) - bound) & (self.locals - {"self", "cls"}))
+
+    def _apply(self, fn_args: ast.arguments, body: ast.AST, binding: Dict[str, Optional[ast.AST]], p: _Path) -> Optional[ast.AST]:
+        names = [a.arg for a in fn_args.posonlyargs + fn_args.args + fn_args.kwonlyargs]
+        if fn_args.vararg or fn_args.kwarg or any(binding.get(n) is None for n in names):
+            return None
+        if not self._free_ok(body, set(names)):
+            return None
+        if self._depth > 6:
+            return None
+        self._depth += 1
+        try:
+            b = _Subst({n: v for n, v in binding.items() if v is not None}).visit(copy.deepcopy(body))
+            return self.simplify(self._freshen(b, p), p)
+        finally:
+            self._depth -= 1
+
+    def _call_through(self, n: ast.Call, p: _Path) -> Optional[ast.AST]:
+        """Argument binding into a lambda or into a one-expression function of the same module: the call is replaced by the
+        callee's result term (each non-deterministic primitive in the callee body becomes a fresh symbol per call)."""
+        if any(isinstance(a, ast.Starred) for a in n.args) or any(k.arg is None for k in n.keywords):
+            return None
+        if isinstance(n.func, ast.Lambda):
+            lam = n.func
+            b = bind_args(n, lam)
+            if len(n.args) > len(lam.args.posonlyargs + lam.args.args):
+                return None
+            return self._apply(lam.args, lam.body, b, p)
+        d = dotted(n.func)
+        if d is None:
+            return None
+        parts = d.split(".")
+        fn, skip = None, False
+        if len(parts) == 1 and parts[0] not in self.locals:
+            s = self.ctx.rs.lookup(self.mod.name, parts[0])
+            if s is not None and s.kind == "func" and s.module == self.mod.name and not s.bound:
+                fn = self.mod.funcs.get(s.name)
+        elif len(parts) == 2 and parts[0] in ("self", "cls") and self.f.cls:
+            fn = self.mod.funcs.get(f"{self.f.cls}.{parts[1]}")
+            skip = True
+        elif len(parts) == 2 and parts[0] == self.f.cls and parts[0] not in self.locals:
+            fn = self.mod.funcs.get(f"{self.f.cls}.{parts[1]}")  # Class.helper(..): only a static / class method binds like this
+            if fn is not None and [dotted(x) for x in fn.node.decorator_list] not in (["staticmethod"], ["classmethod"]):
+                fn = None
+            skip = fn is not None and [dotted(x) for x in fn.node.decorator_list] == ["classmethod"]
+        if fn is None or not isinstance(fn.node, ast.FunctionDef) or fn.fq == self.f.fq:
+            return None
+        decos = [dotted(x) for x in fn.node.decorator_list]
+        if decos == ["staticmethod"]:
+            skip = False
+        elif decos and decos != ["classmethod"]:
+            return None
+        elif decos == ["classmethod"] and not skip:
+            return None
+        body = fn.node.body
+        if len(body) != 1 or not isinstance(body[0], ast.Return) or body[0].value is None:
+            return None
+        if any(isinstance(x, (ast.Yield, ast.YieldFrom, ast.Await)) for x in ast.walk(body[0])):
+            return None
+        pos = fn.node.args.posonlyargs + fn.node.args.args
+        if len(n.args) > len(pos) - (1 if skip else 0):
+            return None
+        b = bind_args(n, fn.node, skip_self=skip)
+        args = copy.deepcopy(fn.node.args)
+        if skip:
+            if args.posonlyargs:
+                args.posonlyargs = args.posonlyargs[1:]
+            else:
+                args.args = args.args[1:]
+        if any(b.get(a.arg) is None for a in args.posonlyargs + args.args + args.kwonlyargs):
+            return None
+        return self._apply(args, body[0].value, b, p)
 
     # ------------------------------------------------------------------ types and truth
     def types(self, e: ast.AST, p: _Path) -> Optional[set]:
@@ -286,6 +542,8 @@ class _Sym:
                     return {"tuple"}
         if _other_term(e):
             return {"str"}
+        if self._funcref(e):
+            return {"function"}
         k = src(e)
         out = None
         for fe, pol in p.fnodes:
@@ -323,11 +581,26 @@ class _Sym:
         f = p.fact(e)
         if f is not None:
             return f
+        if isinstance(e, (ast.Lambda, ast.Name, ast.Attribute)) and self._funcref(e):
+            return True
         if isinstance(e, ast.Compare) and len(e.ops) == 1:
             l, op, r = e.left, e.ops[0], e.comparators[0]
             t = _other_cmp(l, op, r)
             if t is not None:
                 return t
+            if isinstance(op, (ast.In, ast.NotIn)):
+                keys = r.func.value if isinstance(r, ast.Call) and isinstance(r.func, ast.Attribute) and r.func.attr == "keys" and not r.args and not r.keywords else r
+                tb = self._table(keys)
+                if tb is not None:
+                    if _other_term(l):
+                        return isinstance(op, ast.NotIn)  # assumption OTHER: not a key of a constant table either
+                    k = _cv(l)
+                    if k is not _NC:
+                        try:
+                            hit = any(_cv(x) == k for x in tb.keys)
+                        except Exception:
+                            return None
+                        return hit if isinstance(op, ast.In) else (not hit)
             a, b = _cv(l), _cv(r)
             if a is not _NC and b is not _NC:
                 try:
@@ -380,12 +653,20 @@ class _Sym:
             i = _cv(n.slice)
             if isinstance(i, int) and not isinstance(i, bool) and -len(n.value.elts) <= i < len(n.value.elts):
                 return n.value.elts[i]
-        if isinstance(n, ast.Subscript) and isinstance(n.value, ast.Dict) and all(k is not None and _cv(k) is not _NC for k in n.value.keys):
+        if isinstance(n, ast.Subscript) and not isinstance(n.slice, ast.Slice) and isinstance(getattr(n, "ctx", None), ast.Load):
             i = _cv(n.slice)
-            if i is not _NC:
-                hit = [v for k, v in zip(n.value.keys, n.value.values) if _cv(k) == i and type(_cv(k)) is type(i)]
-                if hit:
-                    return hit[-1]
+            tb = self._table(n.value) if i is not _NC else None
+            if tb is not None:
+                hit = self._lookup(tb, i)
+                if hit is not None:
+                    return copy.deepcopy(hit)
+        if isinstance(n, ast.Attribute) and n.attr == "_fields" and isinstance(n.ctx, ast.Load):
+            d = dotted(n.value)
+            if d is not None and d.split(".")[0] not in self.locals:
+                sy = self.ctx.rs.lookup_dotted(self.mod.name, d)
+                names = self._named_fields(sy.fq) if sy is not None and sy.kind == "class" else None
+                if names is not None:
+                    return ast.Tuple(elts=[ast.Constant(value=x) for x in names], ctx=ast.Load())
         if isinstance(n, ast.Subscript) and isinstance(n.value, ast.Constant) and isinstance(n.value.value, (bytes, str)):
             try:
                 c = _const_node(const_eval(n, _noenv))
@@ -410,6 +691,25 @@ class _Sym:
                         return n
             if d == "getattr" and len(n.args) == 2 and isinstance(_cv(n.args[1]), str) and _cv(n.args[1]).isidentifier():
                 return ast.Attribute(value=n.args[0], attr=_cv(n.args[1]), ctx=ast.Load())
+            if d == "getattr" and len(n.args) == 3 and not n.keywords and isinstance(_cv(n.args[1]), str) and isinstance(n.args[0], ast.Name):
+                # getattr(x, "name", default) is x.name when the declared class of x has that field (NamedTuple fields exist on every instance)
+                t = self.ctx.rs.expr_type(self.f, n.args[0]) if n.args[0].id in params(self.f.node) else None
+                names = self._named_fields(t) if t and not t.startswith(("struct:", "type:")) else None
+                if names is not None and _cv(n.args[1]) in names:
+                    return ast.Attribute(value=n.args[0], attr=_cv(n.args[1]), ctx=ast.Load())
+            if isinstance(n.func, ast.Attribute) and n.func.attr == "get" and 1 <= len(n.args) <= 2 and not n.keywords:
+                tb = self._table(n.func.value)
+                if tb is not None:
+                    dflt = n.args[1] if len(n.args) == 2 else ast.Constant(value=None)
+                    if _other_term(n.args[0]):
+                        return dflt  # assumption OTHER: not a key of a constant table
+                    k = _cv(n.args[0])
+                    if k is not _NC:
+                        hit = self._lookup(tb, k)
+                        return copy.deepcopy(hit) if hit is not None else dflt
+            r = self._call_through(n, p)
+            if r is not None:
+                return r
             if d == "isinstance":
                 t = self._isinstance(n, p)
                 if t is not None:
@@ -451,7 +751,12 @@ class _Sym:
         if any(isinstance(n, ast.NamedExpr) for n in ast.walk(e)):
             e = self._walrus(e, p)
         v = _Subst(p.env).visit(e)
-        return self._resolve(self._freshen(v, p), p, 0)
+        out = self._resolve(self._freshen(v, p), p, 0)
+        for q, r in out:
+            cc = self._computed_call(r)
+            if cc is not None and "call of a computed callable" not in q.opaque:
+                q.opaque.append("call of a computed callable")
+        return out
 
     def _walrus(self, e: ast.AST, p: _Path) -> ast.AST:
         """`(n := E)` binds n (innermost first) and reads as n; evaluation-order subtleties of short circuits are ignored."""
@@ -477,6 +782,9 @@ class _Sym:
         ex = self
 
         class F(ast.NodeTransformer):
+            def visit_Lambda(self, n):
+                return n  # a lambda body is evaluated when (and each time) the lambda is called: see _call_through
+
             def visit_Call(self, n):
                 n = self.generic_visit(n)
                 d = dotted(n.func) or ""
@@ -547,12 +855,33 @@ class _Sym:
         return _name(n)
 
     def _impure(self, v: ast.AST) -> bool:
-        for n in ast.walk(v):
+        todo = [v]
+        while todo:
+            n = todo.pop()
+            if isinstance(n, ast.Lambda):
+                continue
             if isinstance(n, ast.Call):
                 d = dotted(n.func) or ""
                 if any(d == x or d.startswith(x) for x in _IMPURE):
                     return True
+            todo.extend(ast.iter_child_nodes(n))
         return False
+
+    def _computed_call(self, v: Optional[ast.AST]) -> Optional[str]:
+        """A call whose callee is itself a computed value (a table entry that could not be resolved, a local holding a
+        callable ...): what it does is not known to the walker."""
+        todo = [v] if v is not None else []
+        while todo:
+            n = todo.pop()
+            if isinstance(n, ast.Lambda):
+                continue
+            if isinstance(n, ast.Call):
+                fn = n.func
+                if isinstance(fn, (ast.Lambda, ast.Call, ast.Subscript, ast.IfExp, ast.BoolOp, ast.NamedExpr)) or (
+                        isinstance(fn, ast.Name) and fn.id in self.locals):
+                    return src(fn)
+            todo.extend(ast.iter_child_nodes(n))
+        return None
 
     def _alloc(self, v: ast.AST) -> bool:
         if isinstance(v, (ast.List, ast.ListComp, ast.Dict, ast.DictComp)):
@@ -764,10 +1093,11 @@ def _merge(paths: List[_Path], ex: _Sym) -> Optional[_Path]:
     if len(paths) == 1:
         return paths[0].copy()
     m = paths[0].copy()
-    for k in list(m.env):
-        vals = [q.env.get(k) for q in paths]
+    for k in sorted({k for q in paths for k in q.env}):
+        # a plain name without an entry still has the value it had on entry (a parameter): it stands for itself
+        vals = [q.env.get(k, _name(k) if k.isidentifier() else None) for q in paths]
         if any(v is None for v in vals):
-            del m.env[k]
+            m.env.pop(k, None)
         elif len({src(v) for v in vals}) > 1:
             m.env[k] = ex._newsym(m, "phi", ast.Tuple(elts=[copy.deepcopy(v) for v in vals], ctx=ast.Load()))
     m.facts = {k: v for k, v in m.facts.items() if all(q.facts.get(k) == v for q in paths)}
@@ -922,6 +1252,11 @@ class _Side:
                 for c in n.keys:
                     if isinstance(c, ast.Constant) and isinstance(c.value, str):
                         out.add(c.value.lower())
+            elif isinstance(n, (ast.Name, ast.Attribute)) and isinstance(n.ctx, ast.Load):
+                tb = self.ex._table(n)  # a constant lookup table of the module / class the loop body consults
+                for c in (tb.keys if tb is not None else []):
+                    if isinstance(c, ast.Constant) and isinstance(c.value, str):
+                        out.add(c.value.lower())
         return out
 
     def find_acc(self) -> Optional[str]:
@@ -987,16 +1322,27 @@ def run(ctx):
         "specialised, per literal of its vocabulary).  These summaries must cover "
         "everything the parsers emit, pair each encoder with its reference decoder, write and read the same HTTP "
         "location, keep static decorations away from the payload, mirror prepend/append sides (including the `x[:-n]` "
-        "zero hazard), use one mask length, and bind build selectors to the like-named C2Data fields."
+        "zero hazard), use one mask length, bind build selectors to the like-named C2Data fields, replace the payload on "
+        "every path of a build step (each build block carries only its own field), and update in place only containers of "
+        "the caller's initial request or created during the call (no state shared between calls).  Dispatch through constant "
+        "lookup tables of callables (module / class level dict displays) is followed by folding the lookup for the literal "
+        "step name and binding the call's arguments into the entry (lambda, function reference, one-expression helper)."
     )
     rep.not_decided = ["round-trip equality for all programs and payloads (only the per-step structural necessary conditions are decided)",
                        "correctness of the codecs themselves (base64 module, utils.netbios_*, utils.xor bodies)",
                        "uri_append recovering the whole URI (value-level)",
-                       "dispatchers with nested loops / try / with / match or table-driven dispatch (reported undecided)"]
+                       "dispatchers with nested loops / try / with / match, or dispatching through a table that is not a constant dict display bound once "
+                       "(computed tables, tables of method names, getattr dispatch): the affected steps are reported undecided",
+                       "aliasing between the returned request and the caller's initial request (transform writes into the caller's params/headers dicts by design)"]
     rep.trusted_base = [
         "CPython ast", "reference opcode / inverse-pair / placement tables in csverif/tables.py and the selector and separator tables of this module",
-        "assumption OTHER: the abstract unknown step name is a str unequal (also after str/lower/upper/casefold/strip) to every constant it is compared with; "
-        "inhabited because only finitely many literals are compared",
+        "assumption OTHER: the abstract unknown step name is a str unequal (also after str/lower/upper/casefold/strip) to every constant it is compared with "
+        "and not a key of any constant lookup table; inhabited because only finitely many literals are compared / used as keys",
+        "constant tables: a dict display bound exactly once to a module-level / class-level name that is never rebound, item-assigned or updated through that "
+        "name in its module is taken to have the displayed content when the dispatcher runs (mutation through an alias or from another module is not tracked)",
+        "function references (def / class / functools.partial of the package, attributes of imported modules) are not None and truthy",
+        "NamedTuple: `_fields` and the positional constructor order are the annotated field names of the class body in source order; every instance has every field",
+        "lifetime: module-level and class-level bindings, instance attributes and parameter defaults outlive a call; a dict display / dict(..) / .copy() evaluated in the call is a new object",
         "lemma base64-pad: at most two '=' are stripped and CPython's base64 decoders ignore surplus padding, so appending >= 2 '=' repairs the input",
         "lemma split: partition(s)[0]/[2] and split(s, 1)[0]/[1] split at the first s, rpartition/rsplit at the last",
         "lemmas slice-drop / neg-zero / or-none: x[:len(x)-n] drops the last n bytes for 0 <= n <= len(x); x[:-n] does so only for n > 0 (x[:-0] == b''); x[:-n or None] for all n >= 0",
@@ -1044,6 +1390,7 @@ def run(ctx):
     r5(ctx, T, R, tt, rt, _ARG, _ARG)
     r6(ctx, T, R, tt, rt)
     r7(ctx, T, R, tt, rt, _ARG, _ARG)
+    r8(ctx, T, tt)
 
 
 def _fields(tt: _Side) -> dict:
@@ -1082,6 +1429,8 @@ def _fields(tt: _Side) -> dict:
         for _ in range(3):
             if isinstance(iv, ast.Call) and dotted(iv.func) in ("dict", "bytes", "OrderedDict", "collections.OrderedDict") and len(iv.args) == 1 and not iv.keywords:
                 iv = iv.args[0]
+            elif isinstance(iv, ast.Dict) and len(iv.keys) == 1 and iv.keys[0] is None:
+                iv = iv.values[0]  # {**x}: a copy of x
             elif isinstance(iv, ast.Call) and isinstance(iv.func, ast.Attribute) and iv.func.attr == "copy" and not iv.args:
                 iv = iv.func.value
             else:
@@ -1780,7 +2129,7 @@ def r7(ctx, T, R, tt, rt, tval, rval):
     c2p = _ST.get("c2") or params(T.node)[1]
     http = _ST.get("http") or params(R.node)[1]
     if tt.handles("BUILD"):
-        sel, unknown = {}, []
+        sel, unknown, kept, seen = {}, [], [], 0
         for s in _SELECTORS:
             ps = _normal(tt.paths("build", ast.Constant(value=s)))
             if _opaque(ps):
@@ -1790,6 +2139,12 @@ def r7(ctx, T, R, tt, rt, tval, rval):
                 if p.opaque:
                     continue  # not fully modelled: reported as undecided above, nothing is concluded from it
                 v = p.env.get(tt.acc)
+                seen += 1
+                if v is None or _mentions(v, tt.acc):
+                    # the accumulator after `build` still is (a function of) the accumulator before it: the bytes the
+                    # previous block produced would be encoded and placed again by this block
+                    cond = ", ".join(f"{src(e)} is {'true' if t else 'false'}" for e, t in p.fnodes) or "always"
+                    kept.append(f"build {s}: payload is {src(v)} when {cond}")
                 reads |= {n.attr for n in ast.walk(v) if isinstance(n, ast.Attribute) and dotted(n.value) == c2p}
                 if not _is(v, tt.acc) and not reads and _cv(v) is _NC:
                     unknown.append(f"build {s}: payload becomes {src(v)}")
@@ -1801,6 +2156,14 @@ def r7(ctx, T, R, tt, rt, tval, rval):
             ctx.undecided("R7", "AGREE", T, "build selectors", "; ".join(sorted(set(unknown))))
         else:
             ctx.ob("R7", "AGREE", T, "build selectors", True, f"transform build reads {sel}; required {want}")
+        if kept:
+            ctx.ob("R7", "AGREE", T, "build starts a new block", False,
+                   "a build step must replace the payload accumulator on every path (an empty or unset field is sent as empty data); "
+                   "here the previous block's bytes survive: " + "; ".join(sorted(set(kept))))
+        elif not seen or unknown:
+            ctx.undecided("R7", "AGREE", T, "build starts a new block", "; ".join(sorted(set(unknown))) or "no build path could be followed")
+        else:
+            ctx.ob("R7", "AGREE", T, "build starts a new block", True, "on every path of every selector the payload accumulator is replaced by a value that does not depend on its previous content")
     if rt.handles("BUILD"):
         store, problems, unknown = {}, [], []
         for s in _SELECTORS:
@@ -1834,7 +2197,15 @@ def r7(ctx, T, R, tt, rt, tval, rval):
                 continue
             cls = dotted(c.func).split(".")[-1]
             kws = {k.arg: k.value for k in c.keywords if k.arg}
-            if c.args or not kws:
+            if c.args and not any(isinstance(a, ast.Starred) for a in c.args):
+                # positional construction: bind by the field order of the (NamedTuple) class definition
+                sy = ctx.rs.lookup_dotted(R.module.name, dotted(c.func)) if dotted(c.func).split(".")[0] not in rt.ex.locals else None
+                names = rt.ex._named_fields(sy.fq) if sy is not None and sy.kind == "class" else None
+                if names is not None and len(c.args) <= len(names):
+                    kws.update({n: a for n, a in zip(names, c.args)})
+                else:
+                    kws = {}
+            if not kws or any(isinstance(a, ast.Starred) for a in c.args) or any(k.arg is None for k in c.keywords):
                 unknown.append(f"recover returns {src(c)}: fields not passed by keyword")
                 continue
             for s in _SELECTORS:
@@ -1859,6 +2230,172 @@ def r7(ctx, T, R, tt, rt, tval, rval):
         else:
             ctx.ob("R7", "AGREE", R, "build selectors", True, f"recover build stores into {store}; returned under the like-named fields; ClientC2Data only for requests, ServerC2Data otherwise")
     r7_init(ctx)
+
+
+# ---------------------------------------------------------------------------------------------------------------- R8
+_FRESH_CALLS = {"dict", "OrderedDict", "collections.OrderedDict", "defaultdict", "collections.defaultdict", "bytearray", "list",
+                "copy.copy", "copy.deepcopy"}
+
+
+def _alts(e: ast.AST, p: _Path, depth: int = 0) -> List[ast.AST]:
+    """The alternatives a value term stands for: the operands of `a or b` / `a and b`, the arms of a conditional
+    expression, the joined values of a prelude merge symbol."""
+    if depth > 6:
+        return [e]
+    e = strip_cast(e)
+    if isinstance(e, ast.Name) and e.id.startswith("%phi") and isinstance(p.defs.get(e.id), ast.Tuple):
+        return [a for x in p.defs[e.id].elts for a in _alts(x, p, depth + 1)]
+    if isinstance(e, ast.BoolOp):
+        return [a for x in e.values for a in _alts(x, p, depth + 1)]
+    if isinstance(e, ast.IfExp):
+        return _alts(e.body, p, depth + 1) + _alts(e.orelse, p, depth + 1)
+    return [e]
+
+
+def _is_alloc(e: ast.AST) -> bool:
+    """An expression that creates a new container every time it is evaluated."""
+    if isinstance(e, (ast.Dict, ast.DictComp, ast.List, ast.ListComp, ast.Set, ast.SetComp)):
+        return True
+    if isinstance(e, ast.Call):
+        if dotted(e.func) in _FRESH_CALLS:
+            return True
+        return isinstance(e.func, ast.Attribute) and e.func.attr == "copy" and not e.args
+    return False
+
+
+def _outlives(ex: _Sym, e: ast.AST) -> Optional[str]:
+    """Description of the object `e` denotes when that object exists before the call and after it (a module-level or
+    class-level binding, an attribute of the instance); None otherwise."""
+    d = dotted(e)
+    if d is None or d.startswith("%"):
+        return None
+    head = d.split(".")[0]
+    if head in ("self", "cls") and "." in d:
+        attr = d.split(".")[1]
+        if ex.f.cls and ex.ctx.rs.property_of(f"{ex.mod.name}.{ex.f.cls}", attr) is not None:
+            return None  # a property computes its value on every access
+        return f"{d} (an attribute of the {'instance / class' if head == 'self' else 'class'}, it lives across calls)"
+    if head in ex.locals:
+        return None
+    sy = ex.ctx.rs.lookup_dotted(ex.mod.name, d)
+    if sy is not None and sy.kind == "const":
+        return f"{d} (bound once when {sy.module}.py is imported, shared by all calls)"
+    if sy is not None and sy.kind == "class" and "." in d:
+        return None
+    if "." in d and ex.ctx.rs.lookup(ex.mod.name, head) is not None and ex.ctx.rs.lookup(ex.mod.name, head).kind == "class":
+        return f"{d} (a class attribute, shared by all calls)"
+    return None
+
+
+def _ctor_field(ex: _Sym, call: ast.Call, fname: str):
+    """The expression a constructor call of a package NamedTuple class gives to field `fname` ("?" if the class is not known)."""
+    d = dotted(call.func)
+    if d is None or d.split(".")[0] in ex.locals:
+        return "?"
+    sy = ex.ctx.rs.lookup_dotted(ex.mod.name, d)
+    names = ex._named_fields(sy.fq) if sy is not None and sy.kind == "class" else None
+    if names is None or fname not in names or any(isinstance(a, ast.Starred) for a in call.args) or any(k.arg is None for k in call.keywords):
+        return "?"
+    for k in call.keywords:
+        if k.arg == fname:
+            return k.value
+    i = names.index(fname)
+    return call.args[i] if i < len(call.args) else "?"
+
+
+def r8(ctx, T, tt):
+    """transform() is a function of (program, c2data, initial request) only: the containers the steps write into in place
+    belong to the caller's initial request or are created during the call - never to an object that outlives the call."""
+    fld = _ST.get("fld") or _fields(tt)
+    fvars: Dict[str, str] = fld["vars"]
+    rev = {v: k for k, v in fvars.items()}
+    ex, pre = tt.ex, tt.pre
+    text = "placements write into per-call state"
+    vocab = _ST.get("vocab") or _lower_names(tables.TRANSFORM_STEPS)
+    inplace: Dict[str, set] = {}
+    for step in sorted(vocab):
+        for p in _normal(tt.run(step.upper())):
+            if p.opaque:
+                continue
+            for n, v in tt.changed(p).items():
+                if n in rev and isinstance(v, ast.Call) and (dotted(v.func) or "").startswith(("%setitem", "%mut_")) and v.args and _is(v.args[0], n):
+                    inplace.setdefault(n, set()).add(step)
+    if not fvars:
+        ctx.undecided("R8", "ALIAS", T, text, fld["why"] or "the locals that carry the request fields were not located")
+        return
+    if not inplace:
+        ctx.ob("R8", "ALIAS", T, text, True, "no step updates a request field in place (every step rebinds its local to a new value)")
+        return
+    reqparams = set(params(T.node))
+    pdef = param_defaults(T.node)
+    problems, unknown, notes = [], [], []
+
+    def shared_object(desc: str, fname: str, n: str):
+        problems.append(f"steps {sorted(inplace[n])} update `{fname}` in place and, when no initial request is given, that container belongs to {desc}: "
+                        "what one call places is still there in the next call's message and in messages returned earlier")
+
+    def container(e: ast.AST, fname: str, n: str, via: str):
+        """Classify one alternative of the container held by field local n."""
+        e = strip_cast(e)
+        if _is_alloc(e):
+            notes.append(f"{fname}: {via}created in the call ({src(e)[:40]})")
+            return
+        if isinstance(e, ast.Name) and e.id in reqparams:
+            notes.append(f"{fname}: the caller's own {e.id}")
+            return
+        o = _outlives(ex, e)
+        if o is not None:
+            shared_object(o, fname, n)
+            return
+        if isinstance(e, ast.Attribute):
+            for holder in _alts(e.value, pre):
+                holder = strip_cast(holder)
+                if isinstance(holder, ast.Name) and holder.id in reqparams:
+                    d = pdef.get(holder.id)
+                    if d is None or (isinstance(d, ast.Constant) and d.value is None):
+                        notes.append(f"{fname}: the caller's initial {holder.id}")
+                    elif isinstance(d, ast.Call):
+                        fe = _ctor_field(ex, d, e.attr)
+                        if fe != "?" and (_is_alloc(fe) or _outlives(ex, fe)):
+                            shared_object(f"the default value of parameter `{holder.id}` ({src(d)[:60]}, evaluated once when the function is defined)", fname, n)
+                        else:
+                            unknown.append(f"{fname}: default value of parameter {holder.id} is {src(d)[:60]}")
+                    else:
+                        o2 = _outlives(ex, d)
+                        if o2 is not None:
+                            shared_object(f"the default value of parameter `{holder.id}`: {o2}", fname, n)
+                        else:
+                            unknown.append(f"{fname}: default value of parameter {holder.id} is {src(d)[:60]}")
+                    continue
+                o = _outlives(ex, holder)
+                if o is not None:
+                    shared_object(o, fname, n)
+                    continue
+                if isinstance(holder, ast.Call):
+                    fe = _ctor_field(ex, holder, e.attr)
+                    if fe == "?":
+                        unknown.append(f"{fname}: field {e.attr} of {src(holder)[:60]}")
+                    else:
+                        for a in _alts(fe, pre):
+                            container(a, fname, n, f"field of a {src(holder.func)} built in the call, ")
+                    continue
+                unknown.append(f"{fname}: field {e.attr} of {src(holder)[:60]}")
+            return
+        unknown.append(f"{fname} starts as {src(e)[:60]}")
+
+    for n in sorted(inplace):
+        iv = pre.env.get(n)
+        if iv is None:
+            unknown.append(f"initial value of the local returned as {rev[n]} not found")
+            continue
+        for a in _alts(iv, pre):
+            container(a, rev[n], n, "")
+    if problems:
+        ctx.ob("R8", "ALIAS", T, text, False, "; ".join(sorted(set(problems + unknown))))
+    elif unknown:
+        ctx.undecided("R8", "ALIAS", T, text, "; ".join(sorted(set(unknown))))
+    else:
+        ctx.ob("R8", "ALIAS", T, text, True, "containers updated in place: " + "; ".join(sorted(set(notes))))
 
 
 def _orient(e: ast.AST, p: _Path, steps: str, depth: int = 0) -> Optional[int]:
